@@ -118,16 +118,19 @@ class Session:
         return h.SeismicRecording3C(h.TimeSeries(mk(), dt), h.TimeSeries(mk(), dt), h.TimeSeries(mk(), dt),
                                     degrees_from_north=float(rng.choice([0.0, 20.0])), meta={"file name(s)": ["a.mseed", "b.mseed"]})
 
-    def make_settings(self, default_fft=False):
+    def make_settings(self, default_fft=False, kind=None, policy=None):
         rng, h = self.rng, self.h
         sm = dict(operator=str(rng.choice(["konno_and_ohmachi", "log_rectangular", "linear_triangular"])), bandwidth=0, center_frequencies_in_hz=np.geomspace(2.0, 15.0, 7))
         sm["bandwidth"] = {"konno_and_ohmachi": 40.0, "log_rectangular": 0.6, "linear_triangular": 2.5}[sm["operator"]]
         wtw = ["tukey", float(rng.choice([0.0, 0.1, 0.5, 1.0]))]
         fft = [None, {"n": None}, {"n": 65536}, {}][rng.randint(4)]
-        kind = rng.randint(6)
+        kind_ = rng.randint(6)
         if default_fft:
-            fft, kind = None, rng.randint(5)
+            fft, kind_ = None, rng.randint(5)
+        kind = kind_ if kind is None else kind
         common = dict(window_type_and_width=wtw, smoothing=sm, fft_settings=fft)
+        if policy is not None:
+            common["handle_dissimilar_time_steps_by"] = policy
         if kind == 0:
             return h.HvsrTraditionalProcessingSettings(method_to_combine_horizontals=METHODS[rng.randint(len(METHODS))], **common)
         if kind == 1:
@@ -140,12 +143,28 @@ class Session:
             return h.HvsrDiffuseFieldProcessingSettings(**common)
         return h.PsdProcessingSettings(**common)
 
-    def setup(self, default_fft=False, with_long=False):
+    def setup(self, default_fft=False, with_long=False, mixed=None):
         ids = []
 
         def f():
             # 100 Hz, or 75 Hz whose sampling interval has no short decimal / binary form (the recordings' time step is input state too)
             dt = [0.01, 1.0 / 75.0][self.rng.randint(2)]
+            if mixed is not None:
+                # recordings with two time steps in one call (the keeping policies then set some of them aside - set aside, not
+                # taken out of the caller's list), every kind of settings object with the given policy
+                for dt_ in (0.02, 0.01, 0.01, 0.02, 0.01):
+                    i = self.nid("r")
+                    rec = self.make_rec(int(round(4.0 / dt_)), dt_)
+                    self.live[i], self.kind[i] = rec, "rec"
+                    self.w.add(i, "rec", rec_slots(rec))
+                    ids.append(i)
+                for kind in (0, 3, 4, 5):
+                    i = self.nid("s")
+                    st = self.make_settings(kind=kind, policy=mixed)
+                    self.live[i], self.kind[i] = st, "set"
+                    self.w.add(i, f"set:{type(st).__name__}", set_slots(st))
+                    ids.append(i)
+                return
             for k in range(3):
                 i = self.nid("r")
                 rec = self.make_rec(int(self.rng.choice([240, 400, 400])), dt)
@@ -199,7 +218,10 @@ class Session:
         def f():
             with warnings.catch_warnings():
                 warnings.simplefilter("ignore")
-                res = self.h.process([self.live[i] for i in recs], sobj)
+                given = [self.live[i] for i in recs]
+                res = self.h.process(given, sobj)
+            # the list the caller handed over is an input as well: same length, same recordings, same order afterwards
+            holder["list"] = len(given) == len(recs) and all(a is self.live[i] for a, i in zip(given, recs))
             self.live[r], self.kind[r] = res, "res"
             self.w.add(r, "res", res_slots(res))
             holder["n"] = (sobj.fft_settings or {}).get("n")
@@ -212,8 +234,9 @@ class Session:
             if rrecs == recs and rs == s and rdig == dig and rid in self.live:
                 rep = rid
                 break
-        self.log("Process", dict(s=s, r=r), [r], f, recs=recs, fftslots=[2 * kf + 1, 2 * kf + 2], repeats=rep, ncontent=NCONTENT, sameN=True)
+        self.log("Process", dict(s=s, r=r), [r], f, recs=recs, fftslots=[2 * kf + 1, 2 * kf + 2], repeats=rep, ncontent=NCONTENT, sameN=True, listIntact=True)
         e = self.events[-1]
+        e["listIntact"] = bool(holder.get("list", True))
         if self.failed:
             return
         n_eff = holder.get("n")
@@ -291,6 +314,26 @@ def main():
         if s.failed:
             op, roles, msg = s.failed
             run.violation(f"session:{op}:raised", f"scripted session {variant}: {op} roles={roles} raised {msg}", dict(kind="session-raise"))
+        traces.append(dict(ev=s.events))
+        sessions.append(s)
+    for policy in ("keeping_majority_time_step", "keeping_smallest_time_step", "frequency_domain_resampling")[:3 if not run.quick else 2]:
+        s = Session(h, rng)
+        s.setup(mixed=policy)
+        sets = [i for i, k in s.kind.items() if k == "set"]
+        recs_ = [i for i, k in s.kind.items() if k == "rec"]
+        for sid in sets:
+            if policy == "frequency_domain_resampling" and type(s.live[sid]).__name__ in ("PsdProcessingSettings", "HvsrDiffuseFieldProcessingSettings"):
+                continue
+            s.process(recs=recs_, s=sid)
+            s.process(recs=recs_, s=sid)
+            if s.failed:
+                break
+        if s.failed:
+            op, roles, msg = s.failed
+            run.violation(f"session:{op}:raised", f"mixed-time-step session ({policy}): {op} roles={roles} raised {msg}", dict(kind="session-raise"))
+        for e in s.events:
+            if e["op"] == "Process" and not e.get("listIntact", True):
+                run.violation("caller-list-changed", f"process() with {policy} changed the list of recordings the caller handed over", dict(kind="list", policy=policy))
         traces.append(dict(ev=s.events))
         sessions.append(s)
     for ti in range(ntr):
